@@ -31,7 +31,7 @@ def angle(u, v):
     return math.degrees(math.acos(max(-1, min(1, float(np.dot(unit(u), unit(v)))))))
 
 
-def gen_antenna(rng, families=None, max_pulses=25, ground=None):
+def gen_antenna(rng, families=None, max_pulses=25, ground=None, len_jitter=(0.7, 1.4), rad_jitter=(0.5, 1.5)):
     """returns dict(f, ground, wires=[dict(nseg,p0,p1,r)], family)"""
     fams = families or ['dipole', 'vee', 'ell', 'tee', 'star', 'monopole', 'monopole_top', 'array', 'gp', 'loop']
     fam = rng.choice(fams)
@@ -73,8 +73,8 @@ def gen_antenna(rng, families=None, max_pulses=25, ground=None):
             c[2] = seg * 12
         for d in dirs:
             n = nseg()
-            s = seg * rng.uniform(0.7, 1.4)
-            r = rad * rng.uniform(0.5, 1.5)
+            s = seg * rng.uniform(*len_jitter)
+            r = rad * rng.uniform(*rad_jitter)
             a, b = c, c + d * s * n
             if ground:
                 if min(a[2], b[2]) < seg * 1.5:
@@ -83,7 +83,7 @@ def gen_antenna(rng, families=None, max_pulses=25, ground=None):
                 a, b = b, a
             W(a, b, n, r)
         if len(wires) < 2:
-            return gen_antenna(rng, families, max_pulses)
+            return gen_antenna(rng, families, max_pulses, None, len_jitter, rad_jitter)
     elif fam == 'monopole':
         n = rng.randint(4, 12)
         x, y = rng.uniform(-1, 1) * lam, rng.uniform(-1, 1) * lam
@@ -105,7 +105,7 @@ def gen_antenna(rng, families=None, max_pulses=25, ground=None):
         a, b = top, top + d * seg * n2
         if rng.random() < 0.5:
             a, b = b, a
-        W(a, b, n2, rad * rng.uniform(0.6, 1.4))
+        W(a, b, n2, rad * rng.uniform(max(0.6, rad_jitter[0]), min(1.4, rad_jitter[1])))
     elif fam == 'array':
         n = rng.randint(5, 9)
         d = rand_dir(rng) if not ground else unit([rng.gauss(0, 1), rng.gauss(0, 1), 0.0])
@@ -144,7 +144,7 @@ def gen_antenna(rng, families=None, max_pulses=25, ground=None):
     ant = dict(f=f, ground=bool(ground), wires=wires, family=fam, lam=lam, seg=seg)
     npulse = sum(w['nseg'] for w in wires)
     if npulse > max_pulses + 6:
-        return gen_antenna(rng, families, max_pulses, None)
+        return gen_antenna(rng, families, max_pulses, None, len_jitter, rad_jitter)
     return ant
 
 
